@@ -464,9 +464,8 @@ theorem resizeWith_sat (cfg : Cfg) (c newSize : Nat) (s : Src α) (w : World α)
     have e3 : guard_resizeWith_3 { genv cfg (w1.hdr c) with newSize := 0 } = decide ((w1.hdr c).size < 0) := rfl
     rw [e1, e3]
     simp only [Nat.not_lt_zero, decide_false, Bool.false_eq_true, if_false]
-    have her := eraseRange_end_sat cfg c 0 w1 h1.basic.vec h1.basic.led (Nat.zero_le _)
-    rw [hs1] at her ⊢
-    refine sat_bind her (fun _ w2 h2 => ?_) (fun _ _ h => h.elim)
+    have her := eraseToEnd_sat cfg c 0 w1 h1.basic.vec h1.basic.led (Nat.zero_le _)
+    refine Res.sat_mono her (fun _ w2 h2 => ?_) (fun _ _ h => h.elim)
     show Resized cfg w w2 c 0 (srcVal w s)
     refine ⟨h1.basic.trans h2.basic, ?_, ?_, by rw [h2.alloc, h1.alloc], fun _ => ⟨by rw [h2.data, h1.data], by rw [h2.cap, h1.cap],
             by rw [h2.noalloc.1, h1.noalloc.1], by rw [h2.noalloc.2, h1.noalloc.2]⟩⟩
@@ -535,7 +534,7 @@ theorem resizeWith_sat (cfg : Cfg) (c newSize : Nat) (s : Src α) (w : World α)
           unfold L0.resize
           rw [List.take_of_length_le (by rw [hx.1]; omega), hx.1]; exact this
       · rw [if_neg (by simpa using hmore)]
-        refine sat_bind (eraseRange_end_sat cfg c newSize w hv hl (by omega)) (fun _ w' h => ?_) (fun _ _ h => h.elim)
+        refine Res.sat_mono (eraseToEnd_sat cfg c newSize w hv hl (by omega)) (fun _ w' h => ?_) (fun _ _ h => h.elim)
         show Resized cfg w w' c newSize (srcVal w s)
         refine ⟨h.basic, ?_, ?_, h.alloc, fun _ => ⟨h.data, h.cap, h.noalloc.1, h.noalloc.2⟩⟩
         · intro xs hx
